@@ -68,7 +68,7 @@ class SearchSpec(G.Gram):
                 cnt = "".join(G.leaves(lst[2][0])) if lst[2] else ""
                 items = [c for c in lst[2] if c[0] == "N" and c[1] == "it_%d" % k]
                 try:
-                    if int(cnt) != len(items):
+                    if int(cnt) * getattr(self, "crep_per_iteration", {}).get(k, 1) != len(items):
                         return False
                 except ValueError:
                     return False
@@ -148,7 +148,16 @@ def gen_searchspec(ch, cfg: dict) -> SearchSpec:
         s.rules["fe"] = ("rx", r"[0-9a]", "e")
         s.rules["fz"] = ("rx", r"[0-9]", "d")
     for k in range(1, r + 1):
-        s.rules["lst_%d" % k] = ("cat", (("nt", "cnt_%d" % k), ("lit", "="), ("crep", ("nt", "it_%d" % k), "int(<cnt_%d>)" % k), ("lit", ";")))
+        form = ch.weighted([3, 2, 2], "spec", "crep-body")
+        if form == 0:
+            body_ = ("nt", "it_%d" % k)
+        elif form == 1:
+            body_ = ("cat", (("nt", "it_%d" % k), ("lit", "~"), ("nt", "it_%d" % k)))  # multi-symbol group
+        else:
+            body_ = ("cat", (("nt", "it_%d" % k), ("lit", "/")))  # group that ends in a terminal
+        s.crep_per_iteration = getattr(s, "crep_per_iteration", {})
+        s.crep_per_iteration[k] = 2 if form == 1 else 1
+        s.rules["lst_%d" % k] = ("cat", (("nt", "cnt_%d" % k), ("lit", "="), ("crep", body_, "int(<cnt_%d>)" % k), ("lit", ";")))
         s.rules["cnt_%d" % k] = ("rx", r"[1-3]", "c")
         s.rules["it_%d" % k] = ("rx", r"[a-d]", "l")
     for k in range(1, n_gen + 1):
